@@ -103,3 +103,11 @@ def observe(f, dt=False):
         return norm(f(), dt)
     except Exception as e:  # noqa: BLE001
         return ("X", type(e).__name__)
+
+
+def attempt(f):
+    """run f (which returns already-plain data); an exception is the observation ('X', type)"""
+    try:
+        return f()
+    except Exception as e:  # noqa: BLE001
+        return ("X", type(e).__name__)
